@@ -128,7 +128,10 @@ def main():
             if not os.path.exists(mp):
                 continue
             meta = json.load(open(mp))
-            res = run_checks(os.path.join(d, 'patch.diff'))
+            # /repo moves on (fix: commits); a seed whose original patch no longer applies carries a patch rebased by hand
+            # onto the current tree (same change, same demonstration), the original stays as the record of what was made
+            rb = os.path.join(d, 'patch-rebased.diff')
+            res = run_checks(rb if os.path.exists(rb) else os.path.join(d, 'patch.diff'))
             meta['checks_reporting'] = res
             meta['detected'] = bool(res.get(meta['property'], {}).get('exit') == 1)
             meta['detected_by_any'] = [k for k, r in res.items() if isinstance(r, dict) and r.get('exit') == 1]
